@@ -152,3 +152,5 @@ Theorem c12_tie_gex_second_pass : forall sm sw,
 Proof. exact tie_gex_second_pass. Qed.
 Theorem c12_tie_gex_updated : forall sm2, ((0 <? sm2) && negb (sm2 =? gex_openssh_trigger))%Z = src_gex_updated sm2.
 Proof. exact tie_gex_updated. Qed.
+Theorem c12_tie_extract_ok_gex_probe_constants : extract_ok_gex_probe_constants = true.
+Proof. exact tie_extract_ok_gex_probe_constants. Qed.
